@@ -81,6 +81,8 @@ FIRST_MISSED = {
     "C07-8": "own property silent (reported by C01/C09 ORD-1) -> C07 shares ORD-1",
     "C13-7": "no check reported it -> KA-2: the ping timer is restarted in the send goroutine only inside the arming sequence of a ping leg",
     "C13-8": "no check reported it -> KA-5: WithKeepalivePing is an argument of the single (list-replacing) WithTimeoutOptions call",
+    "C16-7": "own property silent (reported by C15/C08 DUPLEX) -> C16 shares DUPLEX",
+    "C20-7": "no check reported it -> TMO-3: the sample of a retransmitted packet is deleted unconditionally under resent, keyed by the packet's Seq",
     "C06-3": "no check reported it -> RATELIMIT: once lastResend is refreshed the packets are transmitted",
 }
 
